@@ -4,6 +4,9 @@
 //! For the compiled programs the analysis tables are tied to the model: per lambda/task (number of captures, number
 //! of locals) read off the real unoptimised assembly against `Abra.Analysis` on the generator's resolved AST,
 //! together with the model's verdict on the loop contexts and on the completeness of every offset table.
+//! Also run: must-reject, parameter-assignment and loop-head programs (`loopctx …` requests), ten fixed programs, and the
+//! template families of harness/src/bg9cov.rs that name C03 (Rust oracles: user-Index compound assignment, builtin /
+//! namespace-qualified function values, size limits, capture-position family, regression programs).
 #[path = "../bg9cov.rs"]
 mod bg9cov;
 #[path = "../progen.rs"]
